@@ -63,8 +63,13 @@ func (f *g2lFn) calleeName(e *ast.CallExpr) (pkg, name string, obj types.Object)
 
 func (f *g2lFn) args(b *binds, e *ast.CallExpr) []string {
 	out := []string{}
-	for _, a := range e.Args {
-		out = append(out, f.expr(b, a))
+	sig, _ := f.typeOf(e.Fun).Underlying().(*types.Signature)
+	for i, a := range e.Args {
+		var want types.Type
+		if sig != nil && i < sig.Params().Len() && !(sig.Variadic() && i >= sig.Params().Len()-1) {
+			want = sig.Params().At(i).Type()
+		}
+		out = append(out, f.exprAs(b, a, want))
 	}
 	return out
 }
@@ -208,6 +213,8 @@ func (f *g2lFn) callFn(b *binds, callee *g2lFn, args []string, at ast.Node) stri
 		f.rec = true
 		f.fuel = true
 		f.pure = false
+		// the abstract parameters of f itself are only known once the whole body is compiled
+		return f.bindM(b, "("+callee.leanName+" \x00ABS\x00fuel "+strings.Join(args, " ")+")")
 	}
 	t := "(" + callee.leanName + " " + strings.Join(append(pre, args...), " ") + ")"
 	if len(pre)+len(args) == 0 {
@@ -340,12 +347,14 @@ func (f *g2lFn) stmts(list []ast.Stmt, k kont) []string {
 		switch {
 		case len(s.Results) == 0:
 			vals = f.namedTuple()
+		case len(s.Results) == 1 && len(f.results) == 1:
+			vals = f.exprAs(&b, s.Results[0], f.results[0].Type())
 		case len(s.Results) == 1:
 			vals = f.expr(&b, s.Results[0])
 		default:
 			parts := []string{}
-			for _, r := range s.Results {
-				parts = append(parts, f.expr(&b, r))
+			for i, r := range s.Results {
+				parts = append(parts, f.exprAs(&b, r, f.results[i].Type()))
 			}
 			vals = tuple(parts)
 		}
@@ -710,7 +719,11 @@ func (f *g2lFn) simple(s ast.Stmt) []string {
 		}
 		if len(s.Lhs) == 1 {
 			var b binds
-			t := f.expr(&b, s.Rhs[0])
+			var want types.Type
+			if id, ok := s.Lhs[0].(*ast.Ident); !ok || id.Name != "_" {
+				want = f.typeOf(s.Lhs[0])
+			}
+			t := f.exprAs(&b, s.Rhs[0], want)
 			lines = append(lines, b.lines...)
 			f.assignOne(&lines, s.Lhs[0], t, nil)
 			return lines
